@@ -179,7 +179,19 @@ def run_shard(sh, rec):
             rec.count("resampled_zero_face_sum")
         w = util.compact(rng, shape, m, "noise", real_t, lead=lead)
         f = util.compact(rng, shape, m, "noise", real_t, lead=(d,)) if base["forcing"] else None
+        if vec_primary and c["cid"] % 3 == 0:
+            # planar primary field: one component identically zero (and no forcing into it): under a permutation of the axes the zero
+            # component moves to another slot
+            zc = int(rng.integers(3))
+            w[zc] = 0
+            rec.count("cases_with_one_zero_vector_component")
         U = rng.standard_normal(d)
+        if c["cid"] % 2 == 1:
+            # axis-aligned free stream (one or two components exactly zero): its image under a transposition / cyclic permutation is
+            # aligned with ANOTHER axis, so anything that treats a zero component specially must do so for every axis alike
+            for i_ in rng.permutation(d)[: int(rng.integers(1, d))]:
+                U[int(i_)] = 0.0
+            rec.count("cases_with_axis_aligned_free_stream")
         st = {"w": w, "u": u, "f": f, "U": U}
         pseudo_w = kind != "passive"
         if vec_primary:
